@@ -399,16 +399,18 @@ theorem switchBranchOf_toks (operand : Tok) (cases : List SwitchCase) (ids : Lis
     obtain ⟨cb, hcb, hb⟩ := hb
     split at hb
     · simp at hb
-    · cases hd : cb.2 with
+    · rename_i hnd
+      cases hd : cb.2 with
       | none => simp [hd] at hb
       | some d =>
         simp [hd] at hb; subst hb
-        exact hv _ (List.of_mem_zip hcb).1
+        exact hv _ (List.of_mem_zip hcb).1 (by simpa using hnd)
   have h2 : ∀ sc ∈ switchTrailing cases ids, Q sc.1.line := by
     intro sc hsc
     simp only [switchTrailing, List.mem_map, List.mem_filter] at hsc
-    obtain ⟨cb, ⟨hcb, _⟩, rfl⟩ := hsc
-    exact hv _ (List.of_mem_zip hcb).1
+    obtain ⟨cb, ⟨hcb, hflt⟩, rfl⟩ := hsc
+    simp only [Bool.and_eq_true, Bool.not_eq_eq_eq_not, Bool.not_true] at hflt
+    exact hv _ (List.of_mem_zip hcb).1 hflt.1
   intro t ht
   simp only [switchBranchOf, branchToks, List.mem_cons, List.mem_map] at ht
   rcases ht with rfl | ⟨b, hb, rfl⟩
